@@ -109,7 +109,7 @@ Definition outcome_ok_weak := outcome_ok_gen false.
 
 (* ---------------- C20: served bodies, headers, status ---------------- *)
 From Coq Require Import ZArith.
-From Verif Require Import Base.Time Pub.Calls Pub.Value Pub.Util Pub.BaseActor.
+From Verif Require Import Base.Time Pub.Calls Pub.Value Pub.Util Pub.SideEffect Pub.BaseActor.
 
 Record sstate := { s_page : option json; s_now : option Z }.
 Definition s0 : sstate := {| s_page := None; s_now := None |}.
@@ -164,4 +164,36 @@ Definition hidden_step (entry : string) (in_fwd : bool) (e : ev) (x : ans) : opt
   | EBatchDeliver p _ => if in_fwd || no_hidden p then Some in_fwd else None
   | EWrite b => if String.eqb entry "handler" then (if deep_no_hidden (S (jdepth b)) b then Some in_fwd else None) else Some in_fwd
   | _ => Some in_fwd
+  end.
+
+(* ---------------- C05: stored, listed at the front exactly once, only then delivered / answered ---------------- *)
+Record ostate := { o_created : option string;   (* id of the value the last successful Database.Create stored *)
+                   o_page : option json;        (* the outbox page GetOutbox last returned *)
+                   o_set : nat }.               (* 0 = outbox not yet written, 1 = written successfully, 2 = write failed *)
+Definition o0 : ostate := {| o_created := None; o_page := None; o_set := 0 |}.
+
+Definition ord_step (s : ostate) (e : ev) (x : ans) : option ostate :=
+  match e with
+  | EDb op args =>
+      if String.eqb op "Create" then
+        Some {| o_created := match args, x with [a], AOk => Some (id_str a) | _, _ => None end; o_page := o_page s; o_set := o_set s |}
+      else if String.eqb op "GetOutbox" then
+        Some {| o_created := o_created s; o_page := match x with AJson p => Some p | _ => None end; o_set := o_set s |}
+      else if String.eqb op "SetOutbox" then
+        match args, o_created s, o_page s with
+        | [page], Some i, Some cur =>
+            (* the page written is the page read with the id of the activity just stored put at the front *)
+            if Nat.eqb (o_set s) 0 && jeqb page (canon (prepend_iri "orderedItems" i cur))
+            then Some {| o_created := o_created s; o_page := o_page s; o_set := match x with AOk => 1 | _ => 2 end |}
+            else None
+        | _, _, _ => None
+        end
+      else Some s
+  | EBatchDeliver _ _ => if Nat.eqb (o_set s) 1 then Some s else None
+  | ESetHeader k v =>
+      if String.eqb k "Location" then
+        match o_created s with Some i => if String.eqb v i && Nat.eqb (o_set s) 1 then Some s else None | None => None end
+      else Some s
+  | EWriteHeader n => if Nat.eqb n 201 then (if Nat.eqb (o_set s) 1 then Some s else None) else Some s
+  | _ => Some s
   end.
